@@ -54,6 +54,23 @@ def run(rep):
     rep.oblige(not bad)
     if problems or bad:
         rep.violation("theorems", {"what": "property theorem file no longer checks", "problems": problems, "hygiene": bad}, found=False)
+    # the single shared instance: a lock-it-yourself method must not be able to re-seat the shared `Arc` - a mutable reference to it is refused
+    rej = []
+    for lib in ("std", "tokio", "async_std"):
+        for lock in ("Mutex", "RwLock"):
+            for recv in ("actor: &mut Arc<%s<Self>>" % lock, "actor: &mut std::sync::Arc<%s%s<Self>>" % (LOCKPATH[lib], lock)):
+                item = "impl A {\n    pub fn new(v: i8) -> Self { todo!() }\n    pub fn inc(&mut self) {}\n    pub fn reseat(%s, x: u8) { }\n}" % recv
+                attr = ", ".join((['lib = "%s"' % lib] if lib != "std" else []) + [lock, 'actor(first_name = "U")', 'actor(first_name = "V")'])
+                rej.append((attr, item))
+    res = hook.run_parallel([("family", [a, i]) for a, i in rej], tag="c10rej", shards=4)
+    if res is None:
+        raise Infra("receiver batch timed out")
+    for (attr, item), (cls, f) in zip(rej, res):
+        rep.evaluations += 1
+        if not rep.oblige(cls == "DIAG"):
+            rep.violation("mut_shared_receiver", {"what": "a family method with a mutable reference to the shared `Arc` is accepted (%s): it can replace the handle's `Arc`, "
+                                                          "after which the members no longer address one instance under one lock" % cls,
+                                                  "attr": attr, "item": item, "expected": "diagnostic (mutable references to the shared actor are not allowed)"}, found=True)
     cs = inst.expand_configs(configs(rng, rep.tier), tag="c10")
     items, owners = [], []
     for c in cs:
